@@ -167,3 +167,110 @@ def script_problem(case, minx="case"):
     else:
         out.append(" ".join([str(len(mx))] + [str(i) for i in mx]))
     return "\n".join(out) + "\n"
+
+
+@st.composite
+def graph_problem(draw, min_n=10, max_n=40, singular_only=False, minx_mode=None):
+    """Larger sparse problems with the structure of real networks (DESIGN 9.1 named the small sizes as a limit):
+    unknowns are nodes of a graph with 1..4 connected components, observation rows have coefficients that sum to zero
+    inside one component (weighted differences e_j - e_i, second differences e_i - 2 e_j + e_k), anchored components get
+    rows k e_i, every floating component contributes exactly one null vector (its indicator), an isolated node without
+    any row is a zero column.  All coefficients are small binary fractions, so the rank is exact: it is decided by the
+    connectivity that is built, not by a tolerance.  Node numbering is random or contiguous, the topology of a component
+    is a path, a tree with a window, a star or a random tree, plus extra edges - this is what gives the envelope profiles
+    of different shapes after the RCM ordering."""
+    n = draw(st.integers(min_n, max_n))
+    ncomp = min(draw(st.sampled_from([1, 1, 2, 2, 3, 4])), n // 3)
+    cuts = sorted(draw(st.lists(st.integers(2, n - 2), min_size=ncomp - 1, max_size=ncomp - 1, unique=True))) if ncomp > 1 else []
+    bounds = [0] + cuts + [n]
+    sizes = [bounds[i + 1] - bounds[i] for i in range(ncomp)]
+    label = list(draw(st.permutations(list(range(n))))) if draw(st.booleans()) else list(range(n))
+    nfloat_max = min(3, ncomp)
+    floating = set(draw(st.permutations(list(range(ncomp))))[:draw(st.integers(1 if singular_only else 0, nfloat_max))])
+    rows = []
+    comp_nodes = []
+    zero_col = False
+    d = 0
+    for c in range(ncomp):
+        nodes = [label[i] for i in range(bounds[c], bounds[c + 1])]
+        comp_nodes.append(nodes)
+        sz = len(nodes)
+        if sz == 1 or (sz <= 2 and c in floating and draw(st.integers(0, 3)) == 0):
+            # isolated nodes: no row at all (zero columns), each is its own null vector
+            if c in floating and d + sz <= 3:
+                zero_col = True
+                d += sz
+                continue
+            floating.discard(c)
+        topo = draw(st.sampled_from(["path", "window", "star", "random"]))
+        for k in range(1, sz):
+            if topo == "path":
+                p = k - 1
+            elif topo == "window":
+                p = draw(st.integers(max(0, k - 3), k - 1))
+            elif topo == "star":
+                p = 0
+            else:
+                p = draw(st.integers(0, k - 1))
+            w = draw(st.sampled_from([1.0, 1.0, 2.0, 4.0, 0.5]))
+            rows.append({nodes[p]: -w, nodes[k]: w})
+        for _ in range(draw(st.integers(0, min(sz, 12)))):
+            i = draw(st.integers(0, sz - 1))
+            j = draw(st.integers(0, sz - 1))
+            if i == j:
+                continue
+            if sz >= 3 and draw(st.integers(0, 3)) == 0:
+                k = draw(st.integers(0, sz - 1))
+                if k != i and k != j:
+                    rows.append({nodes[i]: 1.0, nodes[j]: -2.0, nodes[k]: 1.0})
+                    continue
+            w = draw(st.sampled_from([1.0, 2.0, 0.5]))
+            rows.append({nodes[i]: -w, nodes[j]: w})
+        if c in floating and d < 3:
+            d += 1
+        else:
+            floating.discard(c)
+            for _ in range(draw(st.integers(1, 3))):
+                rows.append({nodes[draw(st.integers(0, sz - 1))]: float(draw(st.integers(1, 3)))})
+    if not rows:
+        rows.append({label[0]: 1.0})
+        # (cannot happen for n >= 10: at most three isolated nodes are admitted)
+    order = draw(st.permutations(list(range(len(rows)))))
+    m = len(rows)
+    A = np.zeros((m, n))
+    for r, k in enumerate(order):
+        for j, v in rows[k].items():
+            A[r, j] = v
+    b = [float(draw(st.integers(-20, 20))) for _ in range(m)]
+    blocks = []
+    left = m
+    while left > 0:
+        dim = draw(st.integers(1, min(10, left)))
+        blocks.append(draw(cov_block(dim, True)))
+        left -= dim
+    mode = minx_mode or draw(st.sampled_from(["none", "all", "subset", "subset", "hit"]))
+    minx = None
+    float_nodes = [comp_nodes[c] for c in sorted(floating)]
+    if mode == "nonres" and float_nodes:
+        # a subset that misses one floating component entirely cannot fix its null vector (exactly)
+        miss = draw(st.integers(0, len(float_nodes) - 1))
+        cand = [i for i in range(n) if i not in float_nodes[miss]]
+        k = draw(st.integers(0, len(cand)))
+        minx = sorted(i + 1 for i in draw(st.permutations(cand))[:k])
+    if mode == "all":
+        minx = list(range(1, n + 1))
+    elif mode in ("subset", "hit"):
+        sel = set()
+        for nodes in float_nodes:                         # at least one node of every floating component
+            k = draw(st.integers(1, len(nodes))) if mode == "subset" else 1
+            sel |= set(draw(st.permutations(nodes))[:k])
+        if mode == "subset":
+            others = [i for i in range(n) if i not in sel]
+            sel |= set(draw(st.permutations(others))[:draw(st.integers(0, len(others)))])
+        if not sel:
+            sel = {draw(st.integers(0, n - 1))}
+        minx = sorted(i + 1 for i in sel)
+        if draw(st.booleans()):
+            minx = list(draw(st.permutations(minx)))
+    return {"m": int(m), "n": int(n), "A": A.tolist(), "b": b, "blocks": blocks,
+            "minx": minx, "d": int(d), "zero_col": zero_col, "mode": mode, "graph": True}
